@@ -5,6 +5,8 @@ import (
 	"flag"
 	"fmt"
 	"os"
+	"qverif/interp"
+	"runtime/pprof"
 	"sort"
 	"strconv"
 	"strings"
@@ -29,6 +31,17 @@ func main() {
 	case "walk":
 		walkCmd(os.Args[2:])
 	case "check":
+		if pf := os.Getenv("QVERIF_CPUPROFILE"); pf != "" {
+			f, err := os.Create(pf)
+			if err == nil {
+				pprof.StartCPUProfile(f)
+				go func() {
+					time.Sleep(90 * time.Second)
+					pprof.StopCPUProfile()
+					f.Close()
+				}()
+			}
+		}
 		os.Exit(checkCmd(os.Args[2:]))
 	case "replay":
 		os.Exit(replayCmd(os.Args[2:]))
@@ -127,6 +140,8 @@ func checkCmd(args []string) int {
 	if *tier == "thorough" {
 		limit = 3 * time.Hour
 	}
+	// the interpreter stops exploring at three quarters of the limit, so that what was decided until then is filed
+	interp.SoftDeadline = start.Add(limit * 3 / 4)
 	go func() {
 		time.Sleep(limit)
 		fmt.Printf("UNDECIDED property=%s wall-clock limit %v exceeded (analysis did not finish)\n", *prop, limit)
